@@ -19,7 +19,11 @@ type Universe struct {
 	hashes  map[int64]bitcoin.Hash32
 }
 
-func NewUniverse() *Universe {
+func NewUniverse() *Universe { return NewUniverseNet(false) }
+
+// NewUniverseNet: block id 0 is the genesis header of the main net or of the test nets (what
+// BlockRepository.Load inserts on empty storage for the configured network).
+func NewUniverseNet(testnet bool) *Universe {
 	u := &Universe{
 		headers: make(map[int64]*wire.BlockHeader),
 		ids:     make(map[bitcoin.Hash32]int64),
@@ -32,6 +36,9 @@ func NewUniverse() *Universe {
 		Timestamp:  1231006505,
 		Bits:       0x1d00ffff,
 		Nonce:      2083236893,
+	}
+	if testnet {
+		g.Timestamp, g.Nonce = 1296688602, 414098458
 	}
 	u.headers[0] = g
 	u.bind(0, *g.BlockHash())
